@@ -10,7 +10,8 @@ DECIDING = ["O1:fidelity", "O1:trace_distance", "O1:hilbert_schmidt", "O1:hs_inn
             "O1:sub_fidelity", "O1:matsumoto_fidelity", "O1:trace_norm", "O2:symmetric", "O2:unitary-invariant", "O2:extremes", "O2:pure-overlap",
             "O2:triangle", "O2:fuchs-van-de-graaf", "O2:sub<=F^2", "O2:matsumoto<=F", "O3:rejects-non-density", "O4:fidelity_of_separability"]
 RULE = ("pairs (and triples) of density operators of dimension 2..6, every rank, real and complex: generic, pure, commuting, orthogonal-support, identical and "
-        "nearly equal (|rho - sigma| ~ 1e-6) pairs; signature (monitor, d, rank class, field, pair class); non-trivial when the pair is not identical")
+        "nearly equal (|rho - sigma| ~ 1e-6) pairs; signature (monitor, d, rank class, field, pair class); non-trivial when the pair is not identical; plus integer-dtype basis projectors and one array "
+        "object passed as both arguments (values and rejections)")
 ASSUMPTIONS = [
     "documented formulas recomputed with Hermitian eigendecompositions (never sqrtm): fidelity = root fidelity |sqrt(rho) sqrt(sigma)|_1 as documented, "
     "bures_angle = arccos sqrt F, helstrom_holevo = 1/2 + 1/4 |rho - sigma|_1 as documented",
